@@ -83,8 +83,32 @@ def writer_kinds(repo):
     kinds = {}
     node = chain
     has_scalar = has_else = False
+
+    def resolve(e, depth=0):
+        """a name stands for its single local assignment or for the
+        module-level constant of writer.py"""
+        if isinstance(e, ast.Name) and depth < 4:
+            local = [n for n in walk(f) if isinstance(n, ast.Assign)
+                     and any(isinstance(t, ast.Name) and t.id == e.id
+                             for t in n.targets)]
+            if len(local) == 1 and len(local[0].targets) == 1:
+                return resolve(local[0].value, depth + 1)
+            if not local:
+                v = repo.module_assign(WRI, e.id, missing_ok=True)
+                if v is not None:
+                    return resolve(v, depth + 1)
+        return e
     while True:
-        test = node.test
+        test = resolve(node.test)
+        if isinstance(test, ast.Compare) and len(test.ops) == 1:
+            cmp0 = resolve(test.comparators[0])
+            if isinstance(cmp0, ast.Call) and isinstance(
+                    cmp0.func, ast.Name) and cmp0.func.id in (
+                    "list", "tuple", "set", "frozenset") and len(
+                    cmp0.args) == 1:
+                cmp0 = resolve(cmp0.args[0])
+            test = ast.Compare(left=test.left, ops=test.ops,
+                               comparators=[cmp0])
         lits = []
         if isinstance(test, ast.Compare) and len(test.ops) == 1:
             if isinstance(test.ops[0], ast.Eq):
@@ -303,6 +327,10 @@ class SelfM:
         for st in self._cls.body:
             if isinstance(st, ast.FunctionDef) and st.name == item:
                 return lambda *a, **k: self._mini.call(st, (self,) + a, k)
+            if isinstance(st, ast.Assign) and any(
+                    isinstance(t, ast.Name) and t.id == item
+                    for t in st.targets):
+                return self._mini.expr(st.value, {}, set())
         raise MiniError(f"Export has no attribute `{item}` in the model")
 
 
@@ -416,9 +444,7 @@ def base_globals(repo, hw, cs, scalars, extra=None):
         "_warned": warned,
     }
     mini = Mini(g)
-    for st in repo.tree(EXP).body:
-        if isinstance(st, ast.FunctionDef):
-            mini.g[st.name] = mini.bind(st)
+    mini.bind_module(repo.tree(EXP))
     if extra:
         mini.g.update(extra)
     return mini
@@ -1117,3 +1143,33 @@ MUTANTS = list(MUTANTS) + [
      ("hw.store_feature(feat, data[indices])",
       "hw.store_feature(feat, data[filtarr])"), "R2."),
 ]
+
+
+TWINS = list(TWINS) + [
+    ("writer: image kinds in module constants, mask flag in a local", WRI,
+     [("class RTDCWriter:\n",
+       'FEATURES_IMAGE_GRAYSCALE = ["image", "image_bg", "mask", "qpi_oah",\n'
+       '                            "qpi_oah_bg"]\n'
+       'FEATURES_IMAGE_FLOAT32 = ("qpi_amp", "qpi_pha")\n\n\n'
+       "class RTDCWriter:\n"),
+      ('        elif feat in ["image", "image_bg", "mask", "qpi_oah", '
+       '"qpi_oah_bg"]:\n',
+       "        elif feat in FEATURES_IMAGE_GRAYSCALE:\n"
+       '            is_mask = feat == "mask"\n'),
+      ('is_boolean=(feat == "mask"))', "is_boolean=is_mask)"),
+      ('        elif feat in ["qpi_amp", "qpi_pha"]:',
+       "        elif feat in FEATURES_IMAGE_FLOAT32:")]),
+    ("writer: contour test through a local flag", WRI,
+     [('        elif feat == "contour":\n',
+       "        elif is_ragged:\n"),
+      ('        if feat == "index":\n',
+       '        is_ragged = feat == "contour"\n'
+       '        if feat == "index":\n')]),
+    ("export: chunk-less module constant used in the filtered store", EXP,
+     [("def store_filtered_feature(rtdc_writer, feat, data, filtarr):",
+       'IMAGE_LIKE = ["mask", "image", "image_bg"]\n\n\n'
+       "def store_filtered_feature(rtdc_writer, feat, data, filtarr):"),
+      ('    elif feat in ["mask", "image", "image_bg"]:',
+       "    elif feat in IMAGE_LIKE:")]),
+]
+
